@@ -174,6 +174,18 @@ CHECKS["C06"] = dict(
          "in-place (normalize_*) are not called on caller arrays.",
     ref="6/C06")
 
+CHECKS["C18"] = dict(
+    technique="TLA+ circuit definitions (Defs_Resistive over LinAlg determinants) + TLC-enumerated connected resistor networks with update histories replayed on ResNetwork with a fresh twin + TLC trace validation (Val_C18)",
+    text="Gen_C18 enumerates every connected graph up to NU nodes with link resistances from {1,2,4} (all assignments for small graphs) "
+         "followed by two update_resistances steps (a second assignment and its uniform rescaling by 2); after every step all pairwise "
+         "effective resistances, average/diameter/closeness, vertex and edge current-flow betweenness, admittive degree and clustering are "
+         "observed (diameter BEFORE average after an update) on the object and on a fresh twin.  TLC decides ERDef (ratio of two "
+         "determinants of the integer conductance Laplacian), Metric, PathBound, Foster, Scaling, the aggregates, the defining sums of "
+         "current-flow betweenness and admittive measures, and Functional after every update.",
+    note="Real-valued resistances only (complex impedances are covered by C01/C06 Functional checks of ResNetwork at most); "
+         "current-flow kernels are float32: tolerance 2.5e-3; series/parallel laws are instances of ERDef on paths and cycles.",
+    ref="6/C18")
+
 NOT_APPLICABLE = {
     "C20": "memory safety of compiled kernels is a property of concrete addresses, not of abstract state a TLA+ "
            "specification maintains; nothing binds a PlusCal transcription of index arithmetic to the compiled code "
